@@ -1381,6 +1381,39 @@ func extractConnLegacy(repo, root string) error {
 			}
 		}
 	}
+	// a (unexported) method of the table that is not found under its name is looked up by the response type it reads:
+	// the one method of Conn that mentions that type
+	responseTypeOf := map[string]string{"findCoordinator": "findCoordinatorResponseV0", "heartbeat": "heartbeatResponseV0",
+		"joinGroup": "joinGroupResponse", "leaveGroup": "leaveGroupResponseV0", "listGroups": "listGroupsResponseV1",
+		"offsetCommit": "offsetCommitResponseV2", "offsetFetch": "offsetFetchResponseV1", "syncGroup": "syncGroupResponseV0",
+		"saslHandshake": "saslHandshakeResponseV0", "saslAuthenticate": "saslAuthenticateResponseV0",
+		"createTopics": "createTopicsResponse", "deleteTopics": "deleteTopicsResponse", "readOffset": "partitionOffsetV1",
+		"writeCompressedMessages": "produceResponsePartitionV2"}
+	for _, m := range connMethods {
+		ty := responseTypeOf[m]
+		if connFns[m] != nil || ty == "" {
+			continue
+		}
+		var cands []string
+		for name, fd := range connFns {
+			if recvName(fd) != "Conn" {
+				continue
+			}
+			mentions := false
+			ast.Inspect(fd, func(n ast.Node) bool {
+				if id, ok := n.(*ast.Ident); ok && id.Name == ty {
+					mentions = true
+				}
+				return !mentions
+			})
+			if mentions {
+				cands = append(cands, name)
+			}
+		}
+		if len(cands) == 1 {
+			connFns[m] = connFns[cands[0]]
+		}
+	}
 	dropsBuffer := inlineClosers(connFns)
 	var b strings.Builder
 	b.WriteString("-- GENERATED by /verif/go/extract (connlegacy) from /repo/*.go — do not edit\n")
